@@ -16,7 +16,8 @@ warnings.filterwarnings("ignore")
 THEOREMS = ["Yaw.C07.reusable_iff", "Yaw.C07.fresh_inv", "Yaw.C07.step_inv", "Yaw.C07.marker_inv",
             "Yaw.C07.build_post", "Yaw.C07.history_free", "Yaw.C07.glue_pinned"]
 RULE = ("random histories (length 2..10 quick, ..30 thorough) of build_trees (binned with 3 edge sets incl. equal bin "
-        "count / equal edges with the other closed side, unbinned, forced or not), catalog re-opening, autocorrelations "
+        "count / equal edges with the other closed side, unbinned, forced or not), catalog re-opening (all handles on a "
+        "cache stay alive and every later operation uses one of them at random), autocorrelations "
         "and crosscorrelations (binned and unbinned roles of the same catalog) on three catalogs sharing centres, "
         "redshifts drawn from the edge values; after EVERY operation the marker file and the per-bin sizes of the "
         "pickled trees of every patch are compared with the Lean state machine; the final measurement must equal "
@@ -115,6 +116,10 @@ def run(prop, tier, seed, replay):
                     ck.count("rejected:empty-patch")
                     continue
                 zpp = {k: {pid: cats[k][pid].redshifts for pid in cats[k].keys()} for k in cats}
+                handles = {k: [c] for k, c in cats.items()}
+
+                def pick(k):
+                    return rng.choice(handles[k])
                 length = rng.randrange(2, 11 if tier == "quick" else 31)
                 ops, model_ops = [], {k: [] for k in cats}
                 states = {k: [] for k in cats}
@@ -134,24 +139,25 @@ def run(prop, tier, seed, replay):
                     kind = op[0]
                     if kind == "build":
                         _, k, b, force = op
-                        cats[k].build_trees(None if b is None else b[0], closed="right" if b is None else b[1], force=force)
+                        pick(k).build_trees(None if b is None else b[0], closed="right" if b is None else b[1], force=force)
                         model_ops[k].append(f"b {enc_bin(b)} {int(force)}")
                         touched = [k]
                     elif kind == "reopen":
                         _, k = op
-                        cats[k] = Catalog(root / f"h{hi}_{k}")
+                        # a second handle on the same cache; the older handles stay alive and keep being used
+                        handles[k].append(Catalog(root / f"h{hi}_{k}"))
                         model_ops[k].append("r")
                         touched = [k]
                     elif kind == "auto":
                         _, b = op
-                        res = yaw.autocorrelate(config_for(b), cats["D"], cats["R"], count_rr=True)
+                        res = yaw.autocorrelate(config_for(b), pick("D"), pick("R"), count_rr=True)
                         model_ops["D"].append(f"m {enc_bin(b)}")
                         model_ops["R"].append(f"m {enc_bin(b)}")
                         touched = ["D", "R"]
                         op = op + (res,)
                     else:
                         _, b = op
-                        res = yaw.crosscorrelate(config_for(b), cats["D"], cats["U"], ref_rand=cats["R"])
+                        res = yaw.crosscorrelate(config_for(b), pick("D"), pick("U"), ref_rand=pick("R"))
                         model_ops["D"].append(f"m {enc_bin(b)}")
                         model_ops["R"].append(f"m {enc_bin(b)}")
                         model_ops["U"].append("m u")
